@@ -232,7 +232,7 @@ func (e *engine) handlerFor(instNo int) stun.Handler {
 		var nested *inst
 		nestedNo := 0
 		if instNo >= 0 && instNo < len(e.insts) {
-			if in := e.insts[instNo]; in.reInst > 0 && !in.reDone && h.Kind != "closed" {
+			if in := e.insts[instNo]; in.reInst > 0 && !in.reDone {
 				in.reDone = true
 				nested, nestedNo = e.insts[in.reInst], in.reInst
 			}
@@ -681,14 +681,16 @@ func (e *engine) step(i int, h hop) error {
 		if e.closed {
 			wantErr = "closed"
 		} else {
+			e.closed = true
 			for id, t := range e.tx {
 				ex.events = append(ex.events, hev{Inst: t.inst, Kind: "closed"})
 				e.insts[t.inst].expected++
 				e.st.nonFirstResponse = true
 				e.st.closeInFlight = true
 				delete(e.tx, id)
+				// a handler that reacts to the closed event by starting again gets ErrClientClosed
+				e.modelNested(t.inst, ex, now)
 			}
-			e.closed = true
 		}
 		err := e.closeClient()
 		got := "nil"
@@ -888,9 +890,6 @@ func (e *engine) checkNested(step string) error {
 // closeClient calls Close, unblocking the reader when the connection is not
 // closed by the client (precondition of WithNoConnClose).
 func (e *engine) closeClient() error {
-	if !e.c.NoConnClose {
-		return e.w.Client.Close()
-	}
 	done := make(chan error, 1)
 	go func() { done <- e.w.Client.Close() }()
 	deadline := time.After(30 * time.Second)
@@ -901,7 +900,9 @@ func (e *engine) closeClient() error {
 		case <-deadline:
 			return fmt.Errorf("Close did not return within 30 s although Read kept returning")
 		case <-time.After(200 * time.Microsecond):
-			e.w.Conn.Unblock()
+			if e.c.NoConnClose {
+				e.w.Conn.Unblock()
+			}
 		}
 	}
 }
